@@ -65,6 +65,25 @@ fn build(op: &Value, regs: &[CanonicalAssets]) -> CanonicalAssets {
             let exprs: Vec<AssetExpr> = regs[i].clone().into();
             CanonicalAssets::from(exprs)
         }
+        "ir_sub3" | "ir_addsub" | "ir_subadd" | "ir_negsub" => {
+            use tx3_tir::model::v1beta0::{BuiltInOp, Expression};
+            use tx3_tir::reduce::Apply;
+            let k = op["k"].as_u64().unwrap_or(1) as usize - 1;
+            let list = |r: &CanonicalAssets| -> Expression { Expression::Assets(r.clone().into()) };
+            let b = |o: BuiltInOp| Expression::EvalBuiltIn(Box::new(o));
+            let e = match str_of(&op["op"]) {
+                "ir_sub3" => b(BuiltInOp::Sub(b(BuiltInOp::Sub(list(&regs[i]), list(&regs[j]))), list(&regs[k]))),
+                "ir_addsub" => b(BuiltInOp::Sub(b(BuiltInOp::Add(list(&regs[i]), list(&regs[j]))), list(&regs[k]))),
+                "ir_subadd" => b(BuiltInOp::Add(b(BuiltInOp::Sub(list(&regs[i]), list(&regs[j]))), list(&regs[k]))),
+                _ => b(BuiltInOp::Sub(b(BuiltInOp::Negate(list(&regs[i]))), list(&regs[j]))),
+            };
+            match e.reduce() {
+                Ok(Expression::Assets(x)) => CanonicalAssets::from(x),
+                Ok(Expression::None) => CanonicalAssets::empty(),
+                Err(e) => panic!("ir_error: {e:?}"),
+                other => panic!("driver: IR chain did not reduce to an asset list: {other:?}"),
+            }
+        }
         "relist" => {
             let mut exprs: Vec<AssetExpr> = regs[i].clone().into();
             let more: Vec<AssetExpr> = regs[j].clone().into();
@@ -135,6 +154,11 @@ pub fn run(case: &Value) -> Value {
                 res["checked"] = checked;
                 events.push(json!({"ev": "Op", "op": op, "res": res}));
                 regs.push(v);
+            }
+            Err(p) if str_of(&p["msg"]).starts_with("ir_error") => {
+                // the reducer refused the chain (an intermediate amount left its integers): reported, not a panic
+                events.push(json!({"ev": "Op", "op": op, "res": {"ir_error": p["msg"]}}));
+                break;
             }
             Err(p) => {
                 events.push(json!({"ev": "Op", "op": op, "res": {"panic": p}}));
